@@ -170,8 +170,14 @@ def _dedupe_checks(checks):
     return out
 
 
-def gen_fielddef(rng, attr, backend, colnames_taken, *, override_of=None):
-    """A field declaration.  ``override_of`` = the flat column it replaces."""
+FALSY_ALIASES = [0, 0, False, 0.0, ""]     # legal pandas labels, all falsy
+
+
+def gen_fielddef(rng, attr, backend, colnames_taken, *, override_of=None,
+                 may_rename=False):
+    """A field declaration.  ``override_of`` = the flat column it replaces;
+    ``may_rename`` = nothing inherited designates that column by its name, so
+    the override may give it another public name."""
     if override_of is not None:
         dtype = override_of["dtype"]
         if rng.random() < 0.3:
@@ -201,20 +207,37 @@ def gen_fielddef(rng, attr, backend, colnames_taken, *, override_of=None):
         # reference it) and the regex flag
         f["alias"] = override_of["_alias"]
         f["regex"] = override_of["regex"]
-        if rng.random() < 0.15:
+        r = rng.random()
+        if r < 0.15:
             f["ann"] = False          # Field-only override, annotation inherited
             f["dtype"] = override_of["dtype"]
             f["optional"] = override_of["required"] is False
             f["checks"] = [c for c in f["checks"]]
+        elif r < 0.45 and (may_rename or (override_of["_alias"] is None
+                                          and not override_of["regex"])):
+            # re-declared by annotation only: a plain column, none of the
+            # parent's Field options (nor its alias) survive
+            _make_bare(f)
+            f["alias"], f["regex"] = None, False
+        elif r < 0.6 and may_rename:
+            # a new Field with another alias / none: the column is renamed
+            free = [n for n in COLNAMES
+                    if n not in colnames_taken and n != attr]
+            f["alias"] = rng.choice(free + [None]) if free else None
+            f["regex"] = False
+            if f["alias"] == override_of["_alias"]:
+                f["regex"] = override_of["regex"]
         return f
     r = rng.random()
     free = [n for n in COLNAMES if n not in colnames_taken and n != attr]
     if r < 0.3 and free:
         f["alias"] = rng.choice(free)
     elif r < 0.36 and backend == "pandas":
-        f["alias"] = rng.choice([2020, 7])
+        f["alias"] = rng.choice([2020, 7] + FALSY_ALIASES)
         if f["alias"] in colnames_taken:
             f["alias"] = None
+    elif r < 0.36 and rng.random() < 0.5 and "" not in colnames_taken:
+        f["alias"] = ""               # the empty string is a legal polars name
     elif r < 0.48:
         pats = [p for p in REGEX_ALIASES if p not in colnames_taken]
         if pats and backend == "pandas":
@@ -222,14 +245,59 @@ def gen_fielddef(rng, attr, backend, colnames_taken, *, override_of=None):
             f["optional"] = rng.random() < 0.3
     if not f["checks"] and not f["nullable"] and not f["unique"] and \
             not f["coerce"] and f["alias"] is None and rng.random() < 0.5:
-        f["has_field"] = False        # bare annotation, no Field assigned
-        f["title"] = f["description"] = f["metadata"] = None
-        f["n_failure_cases"] = None
-        f["ignore_na"] = True
+        _make_bare(f)                 # bare annotation, no Field assigned
     if f["has_field"] and not f["optional"] and rng.random() < 0.12 \
             and dtype in ("int64", "float64", "str") and not f["regex"]:
         f["default"] = rng.choice(G.POOL[dtype][:6])
     return f
+
+
+def _make_bare(f):
+    f["has_field"] = False
+    f["nullable"] = f["unique"] = f["coerce"] = False
+    f["default"] = f["title"] = f["description"] = f["metadata"] = None
+    f["n_failure_cases"] = None
+    f["ignore_na"] = True
+    f["checks"] = []
+
+
+def referenced_names(prog, i):
+    """Column names that a check / parser method or a Config option of class
+    ``i`` or of one of its ancestors designates literally (an override that
+    renamed such a column would leave the designation dangling - pandera
+    raises SchemaInitError then, which the documentation does not cover)."""
+    out = []
+    for ci in chain(prog, i):
+        c = prog["classes"][ci]
+        own = {f["attr"]: _colname(f) for f in c["fields"]}
+        flat = None
+        for d in c["checks"]:
+            if d["regex"]:
+                continue
+            if d["by"] == "field":
+                for a in d["targets"]:
+                    if a in own:
+                        out.append(own[a])
+                    else:
+                        flat = flat or resolve(prog, ci)
+                        out += [x["name"] for x in flat["columns"]
+                                if x["_attr"] == a]
+            else:
+                out += d["targets"]
+        for d in c["parsers"]:
+            out += d["targets"]
+        for d in c["df_checks"]:
+            if d["col"] is not None:
+                out.append(d["col"])
+        if c["config"]:
+            out += c["config"]["options"].get("unique") or []
+    return out
+
+
+def same_label(a, b):
+    """Labels are compared with their type: 0, 0.0 and False are different
+    column names for this purpose."""
+    return type(a) is type(b) and a == b
 
 
 def _colname(f):
@@ -269,9 +337,13 @@ def gen_program(rng, backend):
             taken_names.add(_colname(f))
         # field overrides
         if vis_cols and rng.random() < 0.45:
+            refs = referenced_names(prog_so_far, parent)
             for col in rng.sample(vis_cols, min(len(vis_cols), rng.choice([1, 1, 2]))):
                 f = gen_fielddef(rng, col["_attr"], backend, taken_names,
-                                 override_of=col)
+                                 override_of=col,
+                                 may_rename=col["name"] not in refs
+                                 or rng.random() < 0.25)
+                taken_names.add(_colname(f))
                 cls["fields"].insert(rng.randint(0, len(cls["fields"])), f)
         # what is visible now (for check targets)
         classes.append(cls)
@@ -385,12 +457,14 @@ def gen_config(rng, plain, backend, has_parent):
         names = [c["name"] for c in plain if isinstance(c["name"], str)]
         if names:
             opts["unique"] = rng.sample(names, min(len(names), rng.choice([1, 2])))
+    # a subclass may also switch an inherited option off again
+    on = (lambda: True) if not has_parent else (lambda: rng.random() < 0.7)
     if rng.random() < 0.15 and backend == "pandas":
-        opts["unique_column_names"] = True
+        opts["unique_column_names"] = on()
     if rng.random() < 0.15:
-        opts["add_missing_columns"] = True
+        opts["add_missing_columns"] = on()
     if rng.random() < 0.12:
-        opts["drop_invalid_rows"] = True
+        opts["drop_invalid_rows"] = on()
     if rng.random() < 0.08:
         opts["metadata"] = {"owner": "x"}
     extras = {}
@@ -447,6 +521,11 @@ def resolve(prog, i, nonstr_regex="str"):
                            default=None, title=None, description=None,
                            metadata=None, ignore_na=True, n_failure_cases=None,
                            checks=[])
+            col["_has_field_opts"] = bool(
+                col["checks"] or col["nullable"] or col["unique"]
+                or col["coerce"] or col["default"] is not None
+                or col["_alias"] is not None or col["title"]
+                or col["description"] or col["metadata"])
             cols[f["attr"]] = col
         for kind in ("checks", "df_checks", "parsers", "df_parsers"):
             for d in c[kind]:
@@ -461,6 +540,9 @@ def resolve(prog, i, nonstr_regex="str"):
     flat = {"columns": columns, "df_checks": [], "df_parsers": [],
             "options": options, "extras": extras,
             "order_decided": not overridden,
+            # names a live check / parser method designates literally that
+            # are no column of this class (an override renamed the column)
+            "dangling": [],
             "_methods": {m: {"checks": "check", "df_checks": "df_check",
                              "parsers": "parser",
                              "df_parsers": "df_parser"}[k]
@@ -473,9 +555,20 @@ def resolve(prog, i, nonstr_regex="str"):
                       if (isinstance(c["name"], str) or nonstr_regex == "str")
                       and any(re.match(p, str(c["name"])) for p in d["targets"])]
             elif d["by"] == "field":
-                tg = [by_attr[a] for a in d["targets"]]
+                # pa.check(<FieldInfo>) designates the public name that field
+                # object has in the class defining the method
+                own = {f["attr"]: _colname(f)
+                       for f in prog["classes"][ci]["fields"]}
+                names = [own[a] if a in own else by_attr[a]["name"]
+                         for a in d["targets"]]
+                tg = [c for c in columns
+                      if any(same_label(c["name"], n) for n in names)]
+                flat["dangling"] += [n for n in names if not any(
+                    same_label(c["name"], n) for c in columns)]
             else:
                 tg = [c for c in columns if c["name"] in d["targets"]]
+                flat["dangling"] += [n for n in d["targets"] if not any(
+                    c["name"] == n for c in columns)]
             for c in tg:
                 c["custom_checks"].append(
                     {"name": d["name"] or d["method"], "pred": d["pred"],
@@ -484,6 +577,8 @@ def resolve(prog, i, nonstr_regex="str"):
                      "explicit_name": d["name"] is not None,
                      "inherited": ci != i})
         elif kind == "parsers":
+            flat["dangling"] += [n for n in d["targets"] if not any(
+                c["name"] == n for c in columns)]
             for c in columns:
                 if c["name"] in d["targets"]:
                     c["parsers"].append({"name": d["method"], "fn": d["fn"],
@@ -541,14 +636,28 @@ def _conv(dtype, backend, x):
     return (B._pl_val if backend == "polars" else B._val)(dtype, x)
 
 
+def _pattern_args(args):
+    """pvm.gen.spec describes a *compiled* pattern as pattern + "flags"
+    ([] = compiled without flags); both APIs accept an re.Pattern."""
+    if "flags" not in args:
+        return args
+    fl = 0
+    for name in args["flags"]:
+        fl |= getattr(re, name)
+    out = {k: v for k, v in args.items() if k != "flags"}
+    out["pattern"] = re.compile(out["pattern"], fl)
+    return out
+
+
 def field_kwargs(f, dtype, backend):
     kw = {}
     for c in f["checks"]:
         key, argname = FIELD_KEY[c["kind"]]
+        cargs = _pattern_args(c["args"])
         if argname is None:
-            kw[key] = {k: _conv(dtype, backend, v) for k, v in c["args"].items()}
+            kw[key] = {k: _conv(dtype, backend, v) for k, v in cargs.items()}
         else:
-            v = c["args"][argname]
+            v = cargs[argname]
             kw[key] = [_conv(dtype, backend, x) for x in v] \
                 if isinstance(v, list) else _conv(dtype, backend, v)
     for k in ("nullable", "unique", "coerce"):
@@ -659,7 +768,8 @@ def _builtin_check(pa, dtype, backend, c, col):
     if col["n_failure_cases"] is not None:
         kw["n_failure_cases"] = col["n_failure_cases"]
     args = {k: ([_conv(dtype, backend, x) for x in v] if isinstance(v, list)
-                else _conv(dtype, backend, v)) for k, v in c["args"].items()}
+                else _conv(dtype, backend, v))
+            for k, v in _pattern_args(c["args"]).items()}
     ctor = CHECK_CTOR.get(c["kind"], c["kind"])
     return getattr(pa.Check, ctor)(**args, **kw)
 
@@ -744,9 +854,9 @@ def gen_frame(rng, flat, backend):
     # the table generator indexes regex labels by pattern and str names only
     ren = {}
     for c in gs["columns"]:
-        if not isinstance(c["name"], str):
-            ren["i%s" % c["name"]] = c["name"]
-            c["name"] = "i%s" % c["name"]
+        if not isinstance(c["name"], str) or not c["name"]:
+            ren["i%r" % (c["name"],)] = c["name"]
+            c["name"] = "i%r" % (c["name"],)
     if gs["unique"]:
         gs["unique"] = [u for u in gs["unique"]
                         if any(c["name"] == u for c in gs["columns"])] or None
